@@ -93,6 +93,9 @@ type ExecD struct {
 	// AtErr k > 0 (CtxKind 1, CancelExternal): the outside party ends the context while the
 	// directive's caller is parked inside its k-th call of ctx.Err(), instead of after DelaySteps.
 	AtErr int `json:"at_err,omitempty"`
+	// AtEmit (SlowEmit, CancelExternal): the outside party ends the context while the caller is
+	// held inside the slow emitter callback that reports the directive's outcome.
+	AtEmit bool `json:"at_emit,omitempty"`
 	// After k>0: this (top-level) execution is only called once execution k-1
 	// has returned: repeated, sequential use of directives in one process.
 	After int `json:"after,omitempty"`
@@ -477,6 +480,7 @@ func flagCtxReady(i int) int { return 16 + i }
 func flagPredSeen(i int) int { return 32 + i }
 func ctrBarrier(i int) int   { return 16 + i }
 func ctrErrCalls(i int) int  { return 32 + i } // Err() calls on a user-defined context by the directive's caller
+func ctrPostWait(i int) int  { return 48 + i } // parks of the directive's caller inside a slow outcome emitter
 
 // hh implements rt.H for one execution.
 type hh struct{ x *execRun }
@@ -963,6 +967,9 @@ func (e *recEmitter) SchedulerInit(*cff.SchedulerInfo) cff.SchedulerEmitter {
 func (e *recEmitter) slowAfterWait(ctx context.Context) {
 	if e.x.d.SlowEmit && e.k == 0 {
 		e.x.notePostWait(e.x.ctxErrQuiet(ctx))
+		if e.x.d.AtEmit && e.x.idx < 16 {
+			e.x.r.sim.AddCounter(ctrPostWait(e.x.idx), 1)
+		}
 		e.x.r.sim.Yield(engine.HsMisc)
 	}
 }
@@ -1159,6 +1166,9 @@ func (r *runner) runExec(x *execRun, parent context.Context) {
 	if d.AtErr > 0 && i < 16 {
 		sim.AddCounter(ctrErrCalls(i), 1<<20) // release a canceller still waiting for a look that never came
 	}
+	if d.AtEmit && i < 16 {
+		sim.AddCounter(ctrPostWait(i), 1<<20)
+	}
 	sim.SetFlag(flagPredSeen(i)) // release a provider still held for the predicate-promptness probe
 	x.log(EvCleanup, -1, 0, nil, 0, 0)
 	cancel()
@@ -1169,6 +1179,17 @@ func (r *runner) canceller(i int) {
 	sim := r.sim
 	sim.Hold(engine.HoldFlag, flagCtxReady(i), 0)
 	_ = x.ctxPub.Load()
+	if x.d.AtEmit && x.d.SlowEmit && i < 16 {
+		// the context ends while the directive's caller is held inside the emitter that reports the outcome
+		sim.Hold(engine.HoldCounter, ctrPostWait(i), 1)
+		if sim.Aborted() || sim.Flag(flagReturned(i)) {
+			return
+		}
+		x.log(EvCancel, -1, 0, nil, 0, 0)
+		x.count(&x.cancelFired)
+		x.getCancel()()
+		return
+	}
 	if x.d.AtErr > 0 && x.d.CtxKind == 1 && i < 16 {
 		// the context ends while the directive's caller is inside its AtErr-th look at it
 		sim.Hold(engine.HoldCounter, ctrErrCalls(i), x.d.AtErr)
